@@ -49,6 +49,7 @@ func VH_CONC5() {
 	<-done
 	<-done
 	vf.Assert("C12.conc5.reads", okAll[0] && okAll[1])
+	vf.Assert("C16.conc5.members-found", okAll[0] && okAll[1]) // no filter denied a stored key
 	db.Close()
 	vf.Cover("CONC5.end")
 }
